@@ -638,6 +638,8 @@ bool OPNMIDIplay::realTime_NoteOn(uint8_t channel, uint8_t note, uint8_t velocit
 
 void OPNMIDIplay::realTime_NoteOff(uint8_t channel, uint8_t note)
 {
+    if(note >= 127)
+        note = 127; // The same key realTime_NoteOn() has started for an out-of-range key number
     if(static_cast<size_t>(channel) >= m_midiChannels.size())
         channel = channel % 16;
     noteOff(channel, note);
